@@ -884,6 +884,47 @@ def hello_payload_extraction(ctx, repo, rule="R6"):
            sample={"rule": rule, "wire": repr(wire), "parsed": repr(got)})
 
 
+def reply_addressing_model(ctx, repo, rule):
+    """the long-lived packet handler, built by its constructor on a recording socket, is given frames from three
+    conversations one after the other: two from the SAME (ip, port) with different identifier pairs, one from another
+    address.  For each frame the parms it hands on (and keeps) are (ip, port, the frame's source id, the frame's
+    destination id) - what every reply is addressed with - and a reply built with them carries the identifiers swapped."""
+    cname = "GeckoPacketProtocolHandler"
+    interp = Interp(repo, max_depth=10)
+    seen = []
+    sock = Obj(None, {"dispatch_recevied_data": Native(lambda a, k: seen.append((a[0], a[1])), "dispatch")}, name="socket")
+    convs = [(("10.0.0.9", 10022), b"IOS11111111-aaaa", b"SPA66:77:88:99:aa:bb"), (("10.0.0.9", 10022), b"IOS33333333-cccc", b"SPA66:77:88:99:aa:bb"),
+             (("10.0.0.9", 10022), b"IOS33333333-cccc", b"SPA00:11:22:33:44:55"), (("10.0.0.7", 4444), b"IOS11111111-aaaa", b"SPA66:77:88:99:aa:bb")]
+    bad = None
+    try:
+        rx = new_handler(repo, interp, cname, [], {"socket": sock})
+        for i, (addr, src, dst) in enumerate(convs):
+            frame = b"<PACKT><SRCCN>" + src + b"</SRCCN><DESCN>" + dst + b"</DESCN><DATAS>APING\x00</DATAS></PACKT>"
+            interp.steps = 0
+            interp.call(repo.method(cname, "handle"), rx, [frame, addr])
+            want = (addr[0], addr[1], src, dst)
+            kept = read_field(interp, rx, "parms")
+            passed = seen[-1][1] if len(seen) == i + 1 else None
+            kept = tuple(kept) if isinstance(kept, (list, tuple)) else kept
+            passed = tuple(passed) if isinstance(passed, (list, tuple)) else passed
+            if (kept != want or passed != want) and bad is None:
+                bad = (i, want, kept, passed)
+                continue
+            reply = new_handler(repo, interp, cname, [], {"parms": kept, "content": b"APING\x00"})
+            wire = interp.getattr(reply, "send_bytes")
+            wire = SymBytes.of(wire).concrete()
+            if wire is None or (b"<SRCCN>" + dst + b"</SRCCN>") not in wire or (b"<DESCN>" + src + b"</DESCN>") not in wire:
+                bad = bad or (i, want, kept, wire)
+    except PyRaise as e:
+        bad = (len(seen), "raises", e.what, None)
+    except Undecided as e:
+        raise AnalysisError(f"{cname}: reply addressing on a recording socket: {e}")
+    ctx.ob(rule, f"{cname}.handle::parms-of-this-frame", bad is None,
+           f"{cname}.handle, one handler instance, frame {bad[0] + 1 if bad else ''} of four conversations (two of them from one address with different identifiers): expected parms {bad[1] if bad else ''}, "
+           f"kept {bad[2] if bad else ''}, handed on / reply {bad[3] if bad else ''} - a reply built from a received packet must carry THAT packet's identifiers, swapped",
+           repo.method(cname, "handle").loc, sample={"rule": rule, "conversations": len(convs)})
+
+
 def codec(ctx, repo):
     enc = repo.try_fold(ast.parse("GeckoConstants.MESSAGE_ENCODING", mode="eval").body)
     import codecs
@@ -911,10 +952,72 @@ def codec(ctx, repo):
                         total = isinstance(v, str) and codecs.lookup(v).name in ("iso8859-1", "latin-1", "latin1")
                     except LookupError:
                         total = False
+                if not total and _only_diagnostics(fi, node):
+                    ctx.count("R7:conversions that stay inside diagnostics (logging, counters)", 1)
+                    continue
                 ctx.ob("R7", f"{fi.qual}::{call_name(node)}-{_nth(fi, node)}", total,
                        f"{fi.qual}: `{ast.unparse(node)[:70]}` does not name a codec that carries every byte value (latin-1, as GeckoConstants.MESSAGE_ENCODING; "
                        f"found {vals!r}; the default utf-8 cannot carry arbitrary bytes)", loc(fi, node))
     ctx.floor("R7", "encode/decode sites", n, 8)
+
+
+def _only_diagnostics(fi, site):
+    """True when the text made by the conversion `site` provably stays inside diagnostics: it is held in local names only
+    and every use of those names is an argument of a logging call, a dictionary key (`d[k]`, `d.get(k, ..)`), a
+    comparison / test, or the making of another such local (concatenation, formatting).  Anything else - returned,
+    stored on an object, passed to another call, joined into bytes - may reach a message or the decoded state, and the
+    codec rule applies."""
+    from ..src import is_logging_call
+    parents = {}
+    for n in ast.walk(fi.node):
+        for c in ast.iter_child_nodes(n):
+            parents[id(c)] = n
+
+    def stmt_of(n):
+        while n is not None and not isinstance(n, ast.stmt):
+            n = parents.get(id(n))
+        return n
+
+    def pure_text(e, inner):
+        """e builds a text from `inner` by concatenation / formatting only"""
+        if e is inner:
+            return True
+        if isinstance(e, ast.BinOp) and isinstance(e.op, (ast.Add, ast.Mod)):
+            return any(pure_text(x, inner) for x in (e.left, e.right))
+        if isinstance(e, ast.JoinedStr):
+            return any(isinstance(v, ast.FormattedValue) and pure_text(v.value, inner) for v in e.values)
+        if isinstance(e, ast.IfExp):
+            return pure_text(e.body, inner) or pure_text(e.orelse, inner)
+        return False
+    st = stmt_of(site)
+    if not (isinstance(st, ast.Assign) and len(st.targets) == 1 and isinstance(st.targets[0], ast.Name) and pure_text(st.value, site)):
+        return False
+    tracked, work = {st.targets[0].id}, [st.targets[0].id]
+    while work:
+        nm = work.pop()
+        for n in ast.walk(fi.node):
+            if not (isinstance(n, ast.Name) and n.id == nm and isinstance(n.ctx, ast.Load)):
+                continue
+            par = parents.get(id(n))
+            # up through pure text building
+            top = n
+            while isinstance(par, (ast.BinOp, ast.JoinedStr, ast.FormattedValue, ast.IfExp)) and not (isinstance(par, ast.IfExp) and par.test is top):
+                top, par = par, parents.get(id(par))
+            if isinstance(par, ast.Call) and is_logging_call(par) and top in par.args:
+                continue
+            if isinstance(par, ast.Subscript) and par.slice is top:
+                continue
+            if isinstance(par, ast.Call) and isinstance(par.func, ast.Attribute) and par.func.attr in ("get", "setdefault", "pop") and par.args and par.args[0] is top:
+                continue
+            if isinstance(par, ast.Compare) or (isinstance(par, (ast.If, ast.While, ast.IfExp)) and getattr(par, "test", None) is top):
+                continue
+            if isinstance(par, ast.Assign) and len(par.targets) == 1 and isinstance(par.targets[0], ast.Name) and par.value is top:
+                if par.targets[0].id not in tracked:
+                    tracked.add(par.targets[0].id)
+                    work.append(par.targets[0].id)
+                continue
+            return False
+    return True
 
 
 def _nth(fi, node):
@@ -984,6 +1087,7 @@ def check(ctx):
     verb_table(ctx, repo)
     round_trips(ctx, repo)
     framing(ctx, repo)
+    reply_addressing_model(ctx, repo, "R4")
     text_parts(ctx, repo)
     hello_payload_extraction(ctx, repo)
     codec(ctx, repo)
